@@ -453,7 +453,10 @@ pub fn gen_value_of(src: &mut Src, t: crate::refeval::Ty) -> J {
             }
         }
         T::Str => {
-            if src.chance(100) {
+            if src.chance(36) {
+                // numerals and other JSON texts, bare or padded with blanks of every kind
+                J::Str(crate::gen_doc::gen_jsonish(src))
+            } else if src.chance(100) {
                 J::Str(src.pick(STRINGS).to_string())
             } else {
                 J::Str(schema_string(src))
